@@ -151,6 +151,9 @@ def build_rsfacts():
 
 def rsfacts_dir():
     """Directory with one fact file per workspace crate, extracted from REPO's working tree."""
+    pre = os.environ.get("VERIF_RS_FACTS_DIR")   # self-test runs whose mutation touches no Rust input
+    if pre:
+        return pre
     hsh = tree_hash([REPO + "/crates", REPO + "/lib/binding_rust", REPO + "/Cargo.toml", REPO + "/Cargo.lock", REPO + "/lib/Cargo.toml",
                      os.path.join(HERE, "rsfacts", "src")], exts={".rs", ".toml", ".lock", ".inc", ".h", ".json", ".js"},
                     extra=tree_hash([REPO + "/lib/src", REPO + "/lib/include"], exts={".c", ".h"}))
